@@ -162,7 +162,10 @@ fn build_named(spec: &SessionSpec, initiator: bool, ov: &EpOverrides) -> Result<
         (Some(n), Some(_)) => {
             // name override that is not parseable: construct through NoiseParams::new
             let p: snow::params::NoiseParams = spec.canonical_name().parse()?;
+            #[cfg(not(feature = "hfs"))]
             let np = snow::params::NoiseParams::new(n.clone(), p.base, p.handshake, p.dh, p.cipher, p.hash);
+            #[cfg(feature = "hfs")]
+            let np = snow::params::NoiseParams::new(n.clone(), p.base, p.handshake, p.dh, p.kem, p.cipher, p.hash);
             let mut ov2 = ov.clone();
             ov2.name = None;
             build_with_params(spec, initiator, &ov2, np)
@@ -233,16 +236,20 @@ fn oracle(c: &Case, acc: &mut Acc) -> CaseResult {
         return Ok(());
     };
     // control: without the disagreement the session completes
-    let ci = build_snow(spec, true, &EpOverrides::default(), &Instr::none()).map_err(|x| Fail::new(format!("control build {name}: {}", e(&x))))?;
-    let cr = build_snow(spec, false, &EpOverrides::default(), &Instr::none()).map_err(|x| Fail::new(format!("control build {name}: {}", e(&x))))?;
+    let ci = build_snow(spec, true, &EpOverrides::default(), &Instr::none()).map_err(|x| Fail::setup(format!("control build {name}: {}", e(&x))))?;
+    let cr = build_snow(spec, false, &EpOverrides::default(), &Instr::none()).map_err(|x| Fail::setup(format!("control build {name}: {}", e(&x))))?;
     let (ctl, _, _) = run_pair(ci, cr, spec);
-    ensure!(ctl, "{name}: control session (no disagreement) does not complete");
+    if !ctl {
+        return Err(Fail::setup(format!("{name}: control session (no disagreement) does not complete")));
+    }
     if c.dis.iter().any(|d| matches!(d, Dis::CustomNameByte(..))) {
         // control for custom names: both with the same custom name must complete
-        let a = build_named(&si, true, &EpOverrides::default()).map_err(|x| Fail::new(e(&x)))?;
-        let b = build_named(&si, false, &EpOverrides::default()).map_err(|x| Fail::new(e(&x)))?;
+        let a = build_named(&si, true, &EpOverrides::default()).map_err(|x| Fail::setup(e(&x)))?;
+        let b = build_named(&si, false, &EpOverrides::default()).map_err(|x| Fail::setup(e(&x)))?;
         let (ok, _, _) = run_pair(a, b, &si);
-        ensure!(ok, "{name}: control session with equal custom names does not complete");
+        if !ok {
+            return Err(Fail::setup(format!("{name}: control session with equal custom names does not complete")));
+        }
     }
     let hi = match build_named(&si, true, &oi) {
         Ok(h) => h,
